@@ -245,6 +245,8 @@ def run(ctx):
     from ..frame import check_frame_attrs
     from ..sockets import check_forced_kill_eof
     check_frame_attrs(ctx, 'C04', 'R3')
+    from ..frame import check_dead_flag_lowering
+    check_dead_flag_lowering(ctx, 'R3')
     check_ident_reads(ctx)
     check_forced_kill_eof(ctx, 'R6')
     P = ctx.prog
